@@ -170,6 +170,106 @@ def read_files(inst):
     return out
 
 
+# ----------------------------------------------------------------------------- classifiers of known mechanisms
+
+KEY_WF = "C07:workflow-import-reinstantiated-on-instance-load"
+KEY_STAGEVAR = "C07:stage-variable-with-replica-resolved-at-stage-scope-in-stored-instance"
+
+
+def classify_reload_exception(case, msg):
+    """KEY_WF iff the loader complains that a component 'exists multiple times' and that component is
+    exactly one the package obtains from an `$import`ed document of type Workflow."""
+    import re
+    m = re.search(r"Component stage(\d+)\.(\S+) exists multiple times", msg)
+    if not m:
+        return None
+    who = (int(m.group(1)), m.group(2))
+    for comp in case["flowir"]["components"]:
+        if "$import" in comp:
+            doc = (case.get("docs") or {}).get(comp["$import"])
+            if doc and doc.get("type") == "Workflow":
+                ids = [(comp.get("stage", 0) + c.get("stage", 0), c["name"]) for c in doc["components"]]
+                if who in ids:
+                    return KEY_WF
+    return None
+
+
+def _leaves(a, b, path="", out=None):
+    out = [] if out is None else out
+    if isinstance(a, dict) and isinstance(b, dict):
+        for k in sorted(set(a) | set(b)):
+            if k not in a or k not in b:
+                out.append((path + "/" + k, a.get(k, "<absent>"), b.get(k, "<absent>")))
+            else:
+                _leaves(a[k], b[k], path + "/" + k, out)
+    elif isinstance(a, list) and isinstance(b, list) and len(a) == len(b):
+        for i, (x, y) in enumerate(zip(a, b)):
+            _leaves(x, y, "%s[%d]" % (path, i), out)
+    elif a != b:
+        out.append((path, a, b))
+    return out
+
+
+def classify_stage_replica_variable(case, node, a, b):
+    """KEY_STAGEVAR iff (structure of the case) the node is a replica of a component that overrides variable K
+    at component scope while a variable V of its STAGE scope references both %(K)s and %(replica)s, and
+    (shape of the difference) every differing leaf is a string in which only expansions of V differ: before
+    the reload they carry the component-scope value of K, afterwards one and the same other value."""
+    import re
+    if not isinstance(a, dict) or not isinstance(b, dict):
+        return None
+    stage = a.get("stage")
+    name = a.get("name") or ""
+    variables = case["flowir"].get("variables", {})
+    stage_vars = {}
+    for plat in variables.values():
+        for st, vs in (plat.get("stages") or {}).items():
+            if int(st) == stage:
+                stage_vars.update(vs)
+    comps = case["flowir"]["components"] + [c for d in (case.get("docs") or {}).values() for c in d["components"]] \
+        + ((case.get("dowhile") or {}).get("components") or [])
+    m = re.match(r"^(.*?)(\d+)$", name)
+    if not m:
+        return None
+    base, replica = m.group(1), m.group(2)
+    base = base.split("#", 1)[-1]
+    comp = [c for c in comps if c["name"] == base]
+    if len(comp) != 1:
+        return None
+    comp_scope = comp[0].get("variables", {})
+    cands = []          # (V template, K, component-scope value)
+    for v, tmpl in stage_vars.items():
+        if isinstance(tmpl, str) and "%(replica)s" in tmpl:
+            for k, val in comp_scope.items():
+                if "%%(%s)s" % k in tmpl:
+                    cands.append((tmpl, k, str(val)))
+    if not cands:
+        return None
+    leaves = _leaves(a, b)
+    if not leaves:
+        return None
+    for path, x, y in leaves:
+        if not isinstance(x, str) or not isinstance(y, str):
+            return None
+        xt, yt = x.split(), y.split()
+        if len(xt) != len(yt):
+            return None
+        for p, q in zip(xt, yt):
+            if p == q:
+                continue
+            explained = False
+            for tmpl, k, cval in cands:
+                live = tmpl.replace("%%(%s)s" % k, cval).replace("%(replica)s", replica)
+                rx = re.escape(tmpl).replace(re.escape("%%(%s)s" % k), "(?P<K>.+?)", 1)
+                rx = rx.replace(re.escape("%%(%s)s" % k), "(?P=K)").replace(re.escape("%(replica)s"), re.escape(replica))
+                mm = re.match("^" + rx + "$", q)
+                if p == live and mm and mm.group("K") != cval:
+                    explained = True
+            if not explained:
+                return None
+    return KEY_STAGEVAR
+
+
 # ----------------------------------------------------------------------------- one case
 
 case_stage = ["create"]
@@ -196,6 +296,9 @@ def run_case(case, w, only_clause=None):
     if case["dowhile"] is not None:
         with open(os.path.join(pkg, "conf", "dowhile.yaml"), "w") as f:
             yaml.safe_dump(case["dowhile"], f, sort_keys=False)
+    for fn, d in (case.get("docs") or {}).items():
+        with open(os.path.join(pkg, "conf", fn), "w") as f:
+            yaml.safe_dump(d, f, sort_keys=False)
     vfiles = []
     for i, uv in enumerate(case["uservars"]):
         p = os.path.join(root, "uservars%d.yaml" % i)
@@ -229,8 +332,14 @@ def run_case(case, w, only_clause=None):
         if before["flowir_instance.yaml"] is None:
             viol("stored", "no conf/flowir_instance.yaml in the instance directory", {"cycle": ci})
             return False
-        new = experiment.model.data.Experiment.experimentFromInstance(
-            inst, platform=platform, updateInstanceConfiguration=cyc["update"])
+        try:
+            new = experiment.model.data.Experiment.experimentFromInstance(
+                inst, platform=platform, updateInstanceConfiguration=cyc["update"])
+        except Exception as e:
+            key = classify_reload_exception(case, str(e))
+            viol("reload_exception", "instance cannot be reloaded (cycle %d): %s" % (ci, str(e)[-300:].replace("\n", " ")),
+                 {"cycle": ci, "error": str(e)[-1500:]}, key)
+            return False
         new_snap = snapshot(new)
         w.count("clause_reload")
         w.count("clause_reload_nodes_compared", len(prev_snap["nodes"]))
@@ -257,8 +366,9 @@ def run_case(case, w, only_clause=None):
                 if a != b:
                     ok = False
                     d = diff(a, b)
+                    key = classify_stage_replica_variable(case, n, a, b) if what == "configuration" else None
                     viol(what, "%s of %s differs after reload (cycle %d): %s" % (what, n, ci, "; ".join(d)[:600]),
-                         {"cycle": ci, "node": n, "diff": d})
+                         {"cycle": ci, "node": n, "diff": d}, key)
         # (c) same dataflow
         lost, gained, tolerated = edge_diff(prev_snap, new_snap, prev_snap)
         w.count("clause_edges")
@@ -440,7 +550,7 @@ if "--worker" in sys.argv:
 
 def main():
     tier = vlib.tier()
-    n_cases, max_k = (64, 12) if tier == "quick" else (1040, 12)
+    n_cases, max_k = (64, 12) if tier == "quick" else (1224, 12)
     c = vlib.Check(PROP, "exploration",
                    rule="one case = one generated package (platforms, layered variables, user variable files, overrides, "
                         "replication, DoWhile document) + a store/load history (k0 loop iterations, 1-3 reload cycles with "
@@ -471,7 +581,9 @@ def main():
     idxs = list(range(n_cases))
     jobs = [{"indices": idxs[i:i + per], "max_k": max_k} for i in range(0, len(idxs), per)]
     vlib.fanout("checks.C07", jobs, c, timeout=600 if tier == "quick" else 1500)
-    c.floor("cases_round_tripped", 40 if tier == "quick" else 1000)
+    c.floor("cases_run", 60 if tier == "quick" else 1000)
+    # 2 cases in 9 exercise mechanisms that are known findings today (Workflow import, replica stage variable)
+    c.floor("cases_round_tripped", 40 if tier == "quick" else 750)
     c.floor("clause_reload", 80 if tier == "quick" else 2000)
     c.floor("clause_reload_with_loop_instances", 30 if tier == "quick" else 700)
     c.floor("clause_reload_nondefault_platform", 15 if tier == "quick" else 300)
